@@ -1,1 +1,31 @@
-From Ase Require Import Model.Dump.
+(* C04: loading is total: any byte sequence yields a sprite or an error value, never a Panic. *)
+From Ase Require Import Base.Prelude Model.Validate Proofs.NoPanicLoad.
+
+(* for every inflate function and every list of bytes *)
+Theorem C04_total : forall (inflate : list Z -> Z -> zres) (bs : list Z),
+  Forall is_byte bs ->
+  (exists f, load inflate bs = Ok f) \/ (exists e, load inflate bs = Err e).
+Proof. exact load_total. Qed.
+Print Assumptions C04_total.
+
+Theorem C04_no_panic : forall (inflate : list Z -> Z -> zres) (bs : list Z) (s : Z),
+  Forall is_byte bs -> load inflate bs <> Panic s.
+Proof. exact load_no_panic. Qed.
+Print Assumptions C04_no_panic.
+
+(* the parse stage alone (framing, chunk decoders, cel table) *)
+Theorem C04_parse_total : forall (inflate : list Z -> Z -> zres) (bs : list Z) (s : Z),
+  Forall is_byte bs -> run (parse_file inflate) bs <> Panic s.
+Proof. exact parse_no_panic. Qed.
+Print Assumptions C04_parse_total.
+
+(* the validation stage alone, on whatever the parse stage can produce *)
+Theorem C04_validate_total : forall (inflate : list Z -> Z -> zres) (bs rest : list Z) h p (s : Z),
+  Forall is_byte bs -> run (parse_file inflate) bs = Ok ((h, p), rest) -> validate h p <> Panic s.
+Proof. exact validate_after_parse_no_panic. Qed.
+Print Assumptions C04_validate_total.
+
+(* the hypothesis is met and the conclusion is the Ok case on the 144-byte file of Proofs/Truncation.v *)
+Theorem C04_example : Forall is_byte Truncation.mini_file /\ exists f, load Truncation.no_inflate Truncation.mini_file = Ok f.
+Proof. exact mini_file_load_total. Qed.
+Print Assumptions C04_example.
